@@ -184,6 +184,27 @@ def peerlife_run(rigbin, tier, seed, only=None):
     return runs, agg
 
 
+def addrpick_run(chainbin):
+    """AddrPick.tla: the table of draw sequences -> p2putil.NewAddressFunc."""
+    d = c.sub("addrpick")
+    cfg = os.path.join(d, "ap.cfg")
+    c.write_cfg(cfg, "APSpec", {}, ["NeverAConnectedGroup", "RecentOnlyAfter30", "OtherPortOnlyAfter50", "KeepsDrawing", "AtMostHundredDraws", "EmitInv"])
+    raw = os.path.join(d, "ap.out")
+    r = c.tlc_must_pass(c.run_tlc("MC_AddrPick", cfg, workers=1, out_file=raw), "MC_AddrPick")
+    tbl = os.path.join(d, "ap.table.json")
+    if c.unquote_lines(raw, tbl, limit=1) != 1:
+        raise c.Infra("address-pick table was not emitted")
+    out = os.path.join(d, "ap.res")
+    p = c.run_harness(chainbin, {"VERIF_OP": "addrpick", "VERIF_IN": tbl, "VERIF_OUT": out}, cwd=d)
+    if p.returncode != 0 or not os.path.exists(out):
+        raise c.Infra("addrpick harness failed: %s" % p.stderr[-1500:])
+    res = json.load(open(out))
+    if res["behaviours"] < 3000 or (res.get("stats") or {}).get("ok:true", 0) == 0 or (res.get("stats") or {}).get("ok:false", 0) == 0:
+        raise c.Infra("vacuous addrpick run: %s" % res.get("stats"))
+    c.log("  addrpick: %d rows, %d mismatches" % (res["behaviours"], len(res.get("mismatches") or [])))
+    return r, res
+
+
 def c18(tier, seed, replay_path=None):
     rigbin = build_rig()
     if replay_path and json.load(open(replay_path))["case"].get("family") == "api" and (json.load(open(replay_path))["case"].get("mismatch") or {}).get("kind") == "peerlife":
@@ -266,6 +287,12 @@ def c18(tier, seed, replay_path=None):
     if r1.ok or not r1.violation:
         raise c.Infra("model sensitivity lost: ConnMgr.tla with the TimersCoalesce deviation no longer violates SlotsNeverLost")
     chainbin = fc.build()
+    # ---- which address is dialled next (AddrPick.tla -> p2putil.NewAddressFunc)
+    apr, apres = addrpick_run(chainbin)
+    runs.append(apr)
+    for m in apres.get("mismatches") or []:
+        agg["mismatches"].append({"kind": "addrpick", "step": 0, "shard": None, "line": None, "exp": m["exp"], "got": m["got"]})
+    agg["behaviours"] += apres["behaviours"]
     viol_cm, events, cmstats = [], 0, {}
     nsh, nsc = (4, 12) if tier == "quick" else (16, 60)
     procs = []
